@@ -34,7 +34,8 @@ Init == /\ \E s0 \in [ra : BOOLEAN, so : BOOLEAN, sh : BOOLEAN, hra : BOOLEAN] :
         /\ acks = <<>> /\ reqs = <<>> /\ Hostile
 
 SetFlag(f, b) ==
-    /\ st[f] # b /\ Len(hist) < MaxDepth + base
+    \* (also the call that changes nothing -- switching off what is off, on what is on: the model's state stays, the history grows)
+    /\ Len(hist) < MaxDepth + base
     /\ Consistent([st EXCEPT ![f] = b])
     /\ st' = [st EXCEPT ![f] = b]
     /\ hist' = Append(hist, [t |-> "flag", f |-> f, b |-> b, k |-> 0, r |-> ""])
